@@ -115,13 +115,15 @@ def plan(pid, tier):
                 "bounds": {"entry_points": 29, "element_sizes": 7, "count_classes": 16, "min_align": [1, 2, 4, 8, 16]}, "build_profiles": ("release",) if q else ("release", "dbg")}
     if pid == "C20":
         d = 7 if q else 8
-        pair = {"name": "pair-interleavings", "bin": "bumpmc", "profile_build": "release", "args": ["pair", "--prop", "20", "--depth", str(d), "--devs", "1", "--tier", tier, "--budget-s", "90" if q else "900", "--slab-mb", "48"], "replay_args": ["replay-pair", "--depth", str(d), "--tier", tier, "--slab-mb", "48"]}
+        pair = {"name": "pair-interleavings", "bin": "bumpmc", "profile_build": "release", "args": ["pair", "--prop", "20", "--depth", str(d), "--devs", "1", "--tier", tier, "--budget-s", "40" if q else "900"], "replay_args": ["replay-pair", "--depth", str(d), "--tier", tier]}
+        dh = 5 if q else 6
+        pairh = {"name": "pair-with-a-20MiB-arena", "bin": "bumpmc", "profile_build": "release", "args": ["pair", "--prop", "20", "--depth", str(dh), "--devs", "0", "--tier", tier, "--budget-s", "40" if q else "600", "--slab-mb", "48", "--huge", "1"], "replay_args": ["replay-pair", "--depth", str(dh), "--tier", tier, "--slab-mb", "48", "--huge", "1"]}
         iso = {"name": "fresh-process-isolation", "bin": "bumpmc", "profile_build": "release", "args": ["isolation", "--tier", tier], "replay_args": ["replay-isolation", "--tier", tier]}
         loom = {"name": "loom-schedules", "bin": "c20_loom", "profile_build": "release", "args": ["run", "--tier", tier], "replay_args": ["replay"]}
         # the fresh-process differential runs first: if executions in one process are not independent of each
         # other, in-process exploration (which re-executes histories in one process) is not meaningful
-        hop = arena_job("thread-hand-over", "deephop", 20, 4 if q else 5, 0, 40 if q else 600, tier, min_aligns="1,16")
-        return {"level": "model_checking", "jobs": [iso, pair, hop, loom], "owns_crashes": False, "stop_after_violating_job": True,
+        hop = arena_job("thread-hand-over", "deephop", 20, 3 if q else 5, 0, 40 if q else 600, tier, min_aligns="1,16")
+        return {"level": "model_checking", "jobs": [iso, pair, pairh, hop, loom], "owns_crashes": False, "stop_after_violating_job": True,
                 "rule": "(0) fresh-process differential: every probe history of an arena must give the same trace in a process where another arena first ran any prefix history (incl. allocator refusals) as in a process where nothing ran before (catches coupling through process-wide statics); (1) BFS over interleaved histories of 2 (thorough: also 3) real arenas, each with its own allocator slab; every arena's trace is compared with its own sub-history run alone, every footer store reported by the verif_hooks hook must target the acting arena's own chunks; (2) loom explores all schedules (operation granularity, DPOR, no preemption bound) of 2-3 threads each driving its own arena and of arena hand-over; the shared static is a loom UnsafeCell so unsynchronised conflicting accesses are reported as data races",
                 "assumptions": ["bumpalo contains no atomics: schedules are explored at operation granularity; races are decided by happens-before over instrumented accesses (footer stores via the hook, reads of the shared static by chunk-less arenas)", "a store through a site without the hook would be invisible to loom (the sequential pair model still detects a changed static)"],
                 "bounds": {"pair_depth": d, "arenas": 2 if q else 3, "loom_threads": "2-3", "loom_ops_per_thread": "1-3 (thorough: up to 4)"}}
